@@ -38,12 +38,24 @@ def run(ctx, rep):
             roles.append(x[:-1] if len(x) > 1 else x + 'q')      # near miss
         placeholder = ctx.rng.random() < 0.4
         target = {'other': 'zz'}
+        two = False
         if placeholder:
             m = '%(rk)s'
             if ctx.rng.random() < 0.8:
                 target['rk'] = x
-            if ctx.rng.random() < 0.2:
+            r = ctx.rng.random()
+            if r < 0.15:
                 m = 'pre-%(rk)s'
+            elif r < 0.3:
+                m = '%(rk)s-suf'
+            elif r < 0.5 and len(x) >= 2:
+                # X assembled from two placeholders, the second under a key with unusual but legal characters
+                m = '%(rk)s%(net:tenant-id/2)s'
+                two = True
+                if 'rk' in target:
+                    target['rk'] = x[:len(x) // 2]
+                    if ctx.rng.random() < 0.9:
+                        target['net:tenant-id/2'] = x[len(x) // 2:]
         else:
             m = x.replace('%', '%%')
         ckind = ctx.rng.random()
@@ -65,11 +77,11 @@ def run(ctx, rep):
         q = sc['queries'][0]
         tgt, creds = q['target'], q['creds']
         m = sc['_m']
-        if '%(rk)s' in m and 'rk' not in tgt:
+        if ('%(rk)s' in m and 'rk' not in tgt) or ('%(net:tenant-id/2)s' in m and 'net:tenant-id/2' not in tgt):
             want = False
             rep.stat('missing_key')
         else:
-            xs = m.replace('%(rk)s', str(tgt.get('rk'))).replace('%%', '%')
+            xs = m.replace('%(rk)s', str(tgt.get('rk'))).replace('%(net:tenant-id/2)s', str(tgt.get('net:tenant-id/2'))).replace('%%', '%')
             if 'roles' not in creds:
                 want = False
                 rep.stat('no_roles')
